@@ -188,15 +188,35 @@ func c12Scenario(id string, race bool, senders, perSender, capacity int, seed in
 					}
 				}(s)
 			}
+			// an observer keeps asking IsClosed() while the traffic runs: a query, it must say false and disturb nothing
+			var stopObs atomic.Bool
+			var closedSeen atomic.Int32
+			obsDone := make(chan struct{})
+			go func() {
+				defer close(obsDone)
+				for !stopObs.Load() {
+					if a.IsClosed() {
+						closedSeen.Add(1)
+					}
+					runtime.Gosched()
+				}
+			}()
 			close(start)
 			sent := make(chan struct{})
 			go func() { wg.Wait(); close(sent) }()
 			if !c12Await(c, sent, "Actor.Send", rep) {
+				stopObs.Store(true)
 				return
 			}
 			a.Send(c12Msg{marker: true})
 			if !c12Await(c, done, "Actor", rep) {
+				stopObs.Store(true)
 				return
+			}
+			stopObs.Store(true)
+			<-obsDone
+			if closedSeen.Load() != 0 {
+				c.Violationf("Actor:IsClosed", rep, "IsClosed() returned true %d times on an actor that was never closed", closedSeen.Load())
 			}
 			c12CheckLog(c, "Actor", p.log, senders, perSender, rep)
 			if n := p.overlap.Load(); n > 0 {
@@ -586,7 +606,11 @@ func c12SpawnScenario(id string, depth, fan int, seed int64) core.Scenario {
 				c.Violationf("Spawn:orphan-wrong-message", rep, "orphan processed %d", m)
 			}
 		case <-time.After(20 * time.Second):
-			c.Violationf("Spawn:orphan-dead", rep, "an actor spawned from a closed parent does not process messages")
+			if quiet, _ := core.QuietNow(); quiet {
+				c.Violationf("Spawn:orphan-dead", rep, "an actor spawned from a closed parent does not process messages")
+			} else {
+				c.Inconclusive("orphan probe still in progress after 20 s")
+			}
 		}
 		for _, n := range all[1:] {
 			n.a.Close()
@@ -643,7 +667,7 @@ func init() {
 		Meta: func(c *core.Ctx) core.Meta {
 			return core.Meta{
 				Level:       "exploration",
-				Rule:        "1..16 concurrent senders x 1..2000 messages (thorough: long runs of 60000) x channel capacity 0..4 (New / NewByCh / NewByOptions) against one Handler and one Actor per scenario; every message carries (sender, seq); the effect is the monitor: normal build = atomic busy counter (must read 1 on entry) + PRNG yields inside the effect, race build = PLAIN counter and PLAIN log append so that the Go race detector (deciding) reports any two effects not ordered by happens-before; after a drain marker the log must hold every message exactly once with each sender's subsequence increasing; self == actor; work submitted after Close returned never runs; Close() called by the running work itself with 0..3 accepted items buffered and 0..3 senders blocked on the full mailbox (Close and the senders must return, accepted items run once in order); an Ask whose asker timed out while it was queued behind a busy actor (capacity 0..3) is still processed exactly once; spawn trees of depth 1..3 x fan 1..3 for GetParent/GetChild, mailbox independence and spawning from a closed parent. distinct_nontrivial = distinct scenarios",
+				Rule:        "1..16 concurrent senders x 1..2000 messages (thorough: long runs of 60000) x channel capacity 0..4 (New / NewByCh / NewByOptions) against one Handler and one Actor per scenario; every message carries (sender, seq); the effect is the monitor: normal build = atomic busy counter (must read 1 on entry) + PRNG yields inside the effect, race build = PLAIN counter and PLAIN log append so that the Go race detector (deciding) reports any two effects not ordered by happens-before; after a drain marker the log must hold every message exactly once with each sender's subsequence increasing; self == actor; IsClosed() polled by an observer during the traffic; work submitted after Close returned never runs; Close() called by the running work itself with 0..3 accepted items buffered and 0..3 senders blocked on the full mailbox (Close and the senders must return, accepted items run once in order); an Ask whose asker timed out while it was queued behind a busy actor (capacity 0..3) is still processed exactly once; spawn trees of depth 1..3 x fan 1..3 for GetParent/GetChild, mailbox independence and spawning from a closed parent. distinct_nontrivial = distinct scenarios",
 				Assumptions: []string{"Close is called after the drain or by the running work itself (closing concurrently with arbitrary senders is property C15)", "actor ids are time stamps; the harness spaces Spawn calls by one clock tick"},
 			}
 		},
